@@ -19,7 +19,7 @@ CHECKS = {
              'walk selecting the first record whose cumulative weight exceeds the sample (operator chosen to match the sample base), so a '
              'zero-weight record is never selected and each record owns exactly `weight` of the `sum` samples; all-zero keys fall back to '
              'the search; both policies answer decode_move(selected.first); start_searching probes with hash(position) and answers or '
-             'searches. Uniformity of the random source (modulo bias) and hence exact proportionality is not decided.',
+             'searches. Uniformity of the random source (modulo bias) and hence exact proportionality is not decided. A boolean member the case table does not mention is tried both ways: whether the book is consulted must not depend on it.',
         design_ref='DESIGN.md §3 C19',
         note=TB + 'std::istream::read, std::map, std::max_element, std::mt19937 behave as specified.',
         technique='static: dominating-guard rule (check-after-read), PACK/byte-layout extraction, guard-atom tables, cumulative-walk idiom rule'),
@@ -45,7 +45,7 @@ CHECKS = {
              'are assigned for both colours before any read in the same score() call and statistics members never feed results. '
              'Boundedness: interval evaluation (additive loop rule, legal-material atoms) puts all 17 endgame evaluators, either sign, '
              'and the general evaluation strictly inside (-win_in(MAX_DEPTH), win_in(MAX_DEPTH)) and away from VALUE_NONE. '
-             'Collisions of the 64-bit pawn key are probabilistic and not decided.',
+             'Collisions of the 64-bit pawn key are probabilistic and not decided. (R6) walking one evaluation in execution order, every member slot of the scorer (attack maps, pin sets, weight, per colour and kind) is first set by an unconditional plain assignment and is not written after it was read.',
         design_ref='DESIGN.md §3 C14',
         note=TB + 'A-MAT: at most 10 pieces of a kind and 8 pawns per colour; pawn key purity is C04; epoch wrap-around after 2^32 not considered.',
         technique='static: effect/reachability rule on accessors, guard-atom reasoning on the cache protocol, interval abstract interpretation, write-before-read dominance'),
@@ -58,7 +58,7 @@ CHECKS = {
              'outposts and all bitboard helpers) returns an equal value; colour-dependent constants are mirror pairs by clang-evaluated value; '
              'run-time colour choices are mirror pairs (x/flip(x), r/RANK_8-r, v/-v, msb/lsb); every table consulted with an absolute index is '
              'symmetric or covariant by value; iterations over piece lists/bit sets are order independent; both colours are registered, '
-             'dispatched first-applicable, and mutually exclusive per type; elements picked by constant index are used symmetrically.',
+             'dispatched first-applicable, and mutually exclusive per type; elements picked by constant index are used symmetrically. (R0) the premise of the side-by-side typing: what one colour\'s pass reads of the scorer\'s members is complete (no member slot is written after it was read, each is set before use; shared with C14.R6).',
         design_ref='DESIGN.md §3 C13',
         note=TB + 'A-C11: run-time geometry tables (KING_MASK, KNIGHT_MASK, LINES, FULL_LINES, slider attacks) are mirror-covariant; piece lists '
                   'are unordered sets; four listed exceptions carry a hand argument each (checked to be still needed).',
@@ -92,7 +92,7 @@ CHECKS = {
     'C06': dict(
         category='proof',
         text='Decides the stop-signalling discipline for every schedule by obligations over the whole-program '
-             'call graph and CFGs: (R1) every location shared between the search thread and the handlers legal '
+             'call graph and CFGs: (R0) the words stop/isready/quit are dispatched to their own handlers; (R1) every location shared between the search thread and the handlers legal '
              'during a search is atomic or mutex-typed; (R2) the stop flag is only ever set to true after '
              'publication, is initialised false by the constructor, and the Search object is published before '
              'the thread starts; (R3) every recursive call and every unbounded loop of the search drivers polls '
@@ -161,7 +161,7 @@ CHECKS = {
              'castling-right revocation classes occur exactly once with the right colour/wing mask over checked tables; '
              'e.p. square set only behind a double push with mirror-consistent ranks; history push after all key updates; '
              'the symbolic board effect of each of the seven path classes equals the rule of chess for that kind of move; '
-             'replay commands funnel through parse_uci + do_move. The FEN of the result for every concrete pair is not enumerated.',
+             'replay commands funnel through parse_uci + do_move. The FEN of the result for every concrete pair is not enumerated. The replay loops play every listed word and leave early only on checkmate/stalemate (decided per valuation of what they branch on).',
         design_ref='DESIGN.md §3 C02',
         note=TB + 'A-EP, A-PROMO; the moved piece belongs to the side to move.',
         technique='static: path-class effect summaries vs a rule table, SYNC/WHO rules, control-dependence classification'),
@@ -185,7 +185,7 @@ CHECKS = {
              'side/piece keys change together with their fields inside the only functions allowed to write them; '
              'HashKey::init and the incremental mutators use the same (component, table, index) triples and cover all '
              'kinds x colours; pawn key purity; no history/counter reads; key = XOR of the five components. '
-             'Collision freedom is probabilistic and not decided.',
+             'Collision freedom is probabilistic and not decided. No incremental update can precede HashKey::init (which XORs into the components).',
         design_ref='DESIGN.md §3 C04',
         note=TB + 'between do_null_move and undo_null_move only balanced make/unmake happens (C03.R3).',
         technique='static: typestate abstract interpretation over CFGs, sibling-agreement (COVER) and who-may-write rules'),
@@ -223,7 +223,7 @@ CHECKS = {
              'be castling (all deciding functions, lambdas included), the direct-check switch is driven by the promoted kind, '
              'covers six kinds with their own attack pattern, discovered checks use the updated occupancy, the e.p. victim is '
              'removed, the castling arm tests the rook destination; the search consults the predicates before do_move. '
-             'Equality of the bitboard expressions with "king attacked afterwards" for every position rests on C11.',
+             'Equality of the bitboard expressions with "king attacked afterwards" for every position rests on C11. Whether each discovered-check look-up is made is decided per (kind leaving the square, promotion piece).',
         design_ref='DESIGN.md §3 C15',
         note=TB + 'legal positions (no pre-existing check by the mover).',
         technique='static: DECISION tables over resolved comparison atoms, dominating-guard (control dependence) rule, COVER'),
@@ -245,7 +245,7 @@ CHECKS = {
              '(castling literals with the suffix handling found in the code, union L(SAN_REGEX) compiled to an automaton by the '
              'checker); from()/to() validity in parser and printer filters (C15.R2); printer and parser select candidates by '
              'the same criteria from the same generator; piece/promotion letter tables invert; regex groups feed the right '
-             'variables. Uniqueness of the printed SAN in each concrete position is not decided.',
+             'variables. Uniqueness of the printed SAN in each concrete position is not decided. A way of giving up outside the inclusion argument is evaluated on what san() prints per kind of move (constant evaluation of the string tests on the spelling and its regex groups); regex group roles are read from the literal.',
         design_ref='DESIGN.md §3 C17',
         note=TB + 'regex subset: classes, ?, groups, escapes (anything else => analysis broken).',
         technique='static: language inclusion on automata built from source literals, criteria COVER, TABLE inverses'),
@@ -255,7 +255,7 @@ CHECKS = {
              'clock x linear bound c*clock) of calculateTime with its helpers inlined, over the whole input box of the '
              'quantifier, proves result >= 0, result <= 0.7*timeleft[side], non-decreasing in timeleft[side]; every '
              'integer operation/conversion carries a no-overflow obligation; consumer rule: the budget field is the '
-             'allotment for the side to move and later definitions can only lower it.',
+             'allotment for the side to move and later definitions can only lower it. (R0) the clock words of `go` (wtime, btime, winc, binc, movestogo, movetime) fill the fields of that name and colour.',
         design_ref='DESIGN.md §3 C20',
         note=TB + 'floating expressions evaluated over the reals; transfer functions for exp/pow/min/max in checks/rules/arith.py.',
         technique='static: abstract interpretation (intervals, monotonicity, linear bounds) over the AST'),
